@@ -82,7 +82,7 @@ def plan(tier: str, seed: int) -> Plan:
         conds.append(_fcond("prims", e, "filt_prims", T, prefix=[["child", [["name", "xs"]]]], required=True))
     # 4. logical structure
     trees = list(cat.CORE_LOGICAL)
-    trees += cat.sample_logical(rng, 150 if thorough else 8, 3)
+    trees += cat.sample_logical(rng, 400 if thorough else 8, 3)
     seen = set()
     for t in trees:
         k = repr(t)
